@@ -48,7 +48,7 @@ def enum_of(prog, const_name):
     raise AnalysisBroken('enum with enumerator %s not found' % const_name)
 
 
-def build_machine(ctx, prog):
+def build_machine(ctx, prog, explore=True, extra_intrinsics=None):
     f = fn1(prog, 'asl::XdlParser::parse')
     ctx.analysed(f)
     states = enum_of(prog, 'WAIT_VALUE')
@@ -142,8 +142,13 @@ def build_machine(ctx, prog):
         'after_step': after_step,
         'stop_state': lambda env: env.vars['_state'] == S['ERR'],
     }
+    if extra_intrinsics:
+        desc['intrinsics'].update(extra_intrinsics)
     m = automaton.Machine(prog, desc)
     m.S, m.C = S, C
+    if not explore:
+        m.below['_context'] = set(['ARRAY', 'OBJECT:1'])
+        return m
     try:
         m.explore()
     except automaton.Stuck as ex:
